@@ -15,6 +15,11 @@ Back ends
     hyper-parameter columns, objectives loss / st_worker_cost / elapsed); real time is frozen, so simulated time only
     moves by the tuner's sleep; the clock of ``TuningStatus`` jumps by 1000 s per poll (the wall-clock part has to be
     judged on simulated time, as documented for ``SimulatorCallback``).
+  * simulator with a scripted worker: the library's ``SimulatorBackend`` itself, only the hook "run the job and collect
+    what it reported" is scripted (as the blackbox back ends do): jobs end Completed or Failed, also BEFORE their first
+    report.  Here the reference state of a polled trial is the worker's outcome once the simulated time of the job's
+    completion has passed (worker truth), not what the back end hands over; status, failure-limit and exit clauses are
+    judged against it.
 Schedulers: a scripted one (plan of new / resumed / no suggestion, STOP / PAUSE per (trial, epoch), exceptions at the
 k-th result / suggestion), FIFO (random, finite space), Hyperband stopping / promotion, median rule, PBT.
 
@@ -24,16 +29,14 @@ wall-clock threshold is never placed on a reachable clock value ("reached" vs "e
 thresholds are strict as documented for ``StoppingCriterion`` ("more than", "larger than", "below", "above"); on the
 simulator only trials that have reported can be seen by stop_all (documented), so 'left running' is judged on those.
 
-Two clauses are refuted on the pinned tree (genuine discrepancies, each under a clause name of its own so that every
-other clause keeps being checked):
-  * simulator/wallclock-combined-with-metric-thresholds-keeps-the-thresholds: ``SimulatorCallback._modify_stop_criterion``
-    rebuilds the criterion from the count / cost fields and ``max_metric_value={st_tuner_time: max_wallclock_time}`` only;
-    the user's ``min_metric_value`` and ``max_metric_value`` are dropped, so a run with ``max_wallclock_time`` AND metric
-    thresholds on the simulator goes on (and starts trials) long after a threshold was crossed.
+One clause is refuted on the pinned tree (a recorded known finding, under a clause name of its own so that every other
+clause keeps being checked):
   * exit/final-status-...[exception-while-processing-results]: when ``run()`` is left by an exception raised while the
     results of an iteration are processed (scheduler / callback error, "trial completed and no metrics got observed"),
     the states fetched in that iteration are never registered; a trial that completed is shown as 'Stopped' by
     ``mark_running_job_as_stopped`` and ``num_trials_completed`` is one short.
+(simulator/wallclock-combined-with-metric-thresholds-keeps-the-thresholds was refuted until the fix "simulator keeps the
+user's metric thresholds of the stopping criterion"; it is an ordinary clause now.)
 
 Bounded stand-in, never counted as proved.
 """
@@ -1489,7 +1492,8 @@ def monitor_termination(tier="quick", seed=0):
     summary = (
         "real Tuner.run on an in-memory tick back end (scripted workers: <= 6 results per trial, bursts <= 3 per poll, completion / failure 0-2 polls "
         "after the last result, st_worker_cost on/off, clock dt per poll) and on UserBlackboxBackend+SimulatorCallback (BlackboxTabular 4x3 / 2x2 "
-        "configs x 4 levels, 3 delay settings, 3 sleep times); schedulers: scripted (STOP / PAUSE per (trial, epoch), resume fifo / lazy / never, finite plans "
+        "configs x 4 levels, 3 delay settings, 3 sleep times) and on SimulatorBackend with a scripted worker (jobs failing before the first / after 1-2 "
+        "reports, every 1st-3rd trial, judged on worker truth); schedulers: scripted (STOP / PAUSE per (trial, epoch), resume fifo / lazy / never, finite plans "
         "1-8 configs, exception or interrupt at the k-th result / suggestion), FIFO, Hyperband stopping / promotion, median rule, PBT; n_workers 1-4, "
         "asynchronous_scheduling on/off, wait_trial_completion_when_stopping on/off, start_jobs_without_delay on/off, max_failures 0-3; criteria: every field "
         "alone (2-3 thresholds incl. 0), every ordered pair near+far, every pair near+near, all 8 given with one near, all near; at every loop end "
